@@ -164,6 +164,47 @@ def scenario(name):
             rc, out, err = run(["--no-editorconfig", "x.lua"], e)
             if indent_of(r("ec/x.lua")) != (1, b"\t"): return False, "--no-editorconfig did not fall back to the defaults"
             return True, ""
+        if name == "option_carriers":
+            src = (b"local s = 'a' .. \"b\" .. 'it\\'s'\nlocal b = require('b')\nlocal a = require('a')\n"
+                   b"function f(x) if x then if x then call_some_function(argument_one, argument_two) cf(argument_one, argument2) end end end\n"
+                   b"if x then return end\nlocal t = f 'x'\nlocal u = g { 1 }\n")
+            table = [   # (name, toml, flags, editorconfig)
+                ("column_width", 'column_width = 40\n', ["--column-width", "40"], "max_line_length = 40\n"),
+                ("line_endings", 'line_endings = "Windows"\n', ["--line-endings", "Windows"], "end_of_line = crlf\n"),
+                ("spaces3", 'indent_type = "Spaces"\nindent_width = 3\n', ["--indent-type", "Spaces", "--indent-width", "3"], "indent_style = space\nindent_size = 3\n"),
+                ("tabs8_w40", 'indent_type = "Tabs"\nindent_width = 8\ncolumn_width = 40\n', ["--indent-type", "Tabs", "--indent-width", "8", "--column-width", "40"], "indent_style = tab\nindent_size = 8\nmax_line_length = 40\n"),
+                ("quote_single", 'quote_style = "AutoPreferSingle"\n', ["--quote-style", "AutoPreferSingle"], "quote_type = single\n"),
+                ("call_none", 'call_parentheses = "None"\n', ["--call-parentheses", "None"], "call_parentheses = None\n"),
+                ("call_nosinglestring", 'call_parentheses = "NoSingleString"\n', ["--call-parentheses", "NoSingleString"], "call_parentheses = NoSingleString\n"),
+                ("collapse_always", 'collapse_simple_statement = "Always"\n', ["--collapse-simple-statement", "Always"], "collapse_simple_statement = Always\n"),
+                ("sort_requires", '[sort_requires]\nenabled = true\n', ["--sort-requires"], "sort_requires = true\n"),
+                ("space_always", 'space_after_function_names = "Always"\n', ["--space-after-function-names", "Always"], "space_after_function_names = Always\n"),
+            ]
+            for nm, toml, flags, ec in table:
+                outs = {}
+                for carrier in ("toml", "flag", "editorconfig"):
+                    sub = os.path.join(d, nm + "_" + carrier); os.makedirs(sub)
+                    open(os.path.join(sub, "x.lua"), "wb").write(src)
+                    args = ["x.lua"]
+                    if carrier == "toml": open(os.path.join(sub, "stylua.toml"), "w").write(toml)
+                    elif carrier == "flag": args = ["--no-editorconfig"] + flags + args
+                    else: open(os.path.join(sub, ".editorconfig"), "w").write("root = true\n[*.lua]\n" + ec)
+                    rc, out, err = run(args, sub)
+                    if rc != 0: return False, f"{nm} via {carrier}: exit {rc}: {err[:160]!r}"
+                    outs[carrier] = open(os.path.join(sub, "x.lua"), "rb").read()
+                if not (outs["toml"] == outs["flag"] == outs["editorconfig"]):
+                    bad = "editorconfig" if outs["toml"] == outs["flag"] else "flag/toml"
+                    return False, f"option {nm}: the three carriers do not give byte-identical output ({bad} differs)"
+                if outs["toml"] == src: return False, f"option {nm}: no effect"
+            for nm, toml in [("unknown_key", "colum_width = 40\n"), ("unknown_nested_key", "[sort_requires]\nenable = true\n"), ("nested_extra_key", "[sort_requires]\nenabled = true\nfoo = 1\n"),
+                             ("invalid_value", 'quote_style = "Nope"\n'), ("wrong_type", 'column_width = "wide"\n'), ("unknown_table", "[nope]\nx = 1\n")]:
+                sub = os.path.join(d, "bad_" + nm); os.makedirs(sub)
+                open(os.path.join(sub, "x.lua"), "wb").write(src)
+                open(os.path.join(sub, "stylua.toml"), "w").write(toml)
+                rc, out, err = run(["x.lua"], sub)
+                if rc != 2: return False, f"stylua.toml with {nm} ({toml!r}) was accepted: exit {rc}"
+                if open(os.path.join(sub, "x.lua"), "rb").read() != src: return False, f"stylua.toml with {nm}: the file was modified"
+            return True, ""
         raise KeyError(name)
     finally:
         shutil.rmtree(d, ignore_errors=True)
